@@ -34,6 +34,10 @@ struct Case {
     /// run k happens with the whole world moved to another absolute location
     #[serde(default)]
     relocate: Vec<bool>,
+    /// process k goes through the library function `generate_from_config` (the third public
+    /// entry point; it writes the bindings only - no record, no dependency report)
+    #[serde(default)]
+    via_library: Vec<bool>,
     /// the runs after the first regenerate over the files the previous run left (no
     /// clean output directory in between)
     #[serde(default)]
@@ -296,6 +300,33 @@ pub fn add_specials(r: &mut Rng, m: &mut Model, flags: &mut Vec<String>, allow_d
             flags.push("dup_type".into());
         }
     }
+    // two DIFFERENT events whose names differ only in their separators (job_done / job-done): the
+    // listener functions derived from them have one name; the events, their payloads and both
+    // listeners are separate things (own stream: drawn after everything else)
+    let mut tr = r.split("twin-listener");
+    if tr.chance(1, 5) {
+        let cand: Option<String> = m.events().iter().map(|(_, e)| e.event.clone()).find(|n| n.contains('-') || n.contains('_'));
+        if let Some(name) = cand {
+            let twin: String = name.chars().map(|ch| if ch == '-' { '_' } else if ch == '_' { '-' } else { ch }).collect();
+            if !m.events().iter().any(|(_, e)| e.event == twin) {
+                let mut nm = Namer::from_model(m);
+                let f = Command {
+                    name: nm.fresh(&mut tr, "cmd"),
+                    params: vec![],
+                    chans: vec![],
+                    ret: None,
+                    is_async: false,
+                    short_attr: false,
+                    emits: vec![Emit { event: twin, payload: if tr.chance(1, 2) { Payload::Int } else { Payload::Bool }, emit_to: false }],
+                    is_command: false,
+                };
+                let k = tr.below(m.files.len() as u64) as usize;
+                let pos = tr.below(m.files[k].items.len() as u64 + 1) as usize;
+                m.files[k].items.insert(pos, Item::Cmd(f));
+                flags.push("twin_listener".into());
+            }
+        }
+    }
 }
 
 fn forced_run(env: &mut Env, w: &World, setup: &Setup, cfg: &Cfg, p: ProcSpec, verbose: bool, viz: bool) -> Result<Files, String> {
@@ -537,6 +568,10 @@ impl Check for C13 {
             verbose,
             viz,
             relocate,
+            via_library: {
+                let mut lr = r.split("library");
+                (0..s).map(|k| k > 0 && i % 2 == 0 && (i / 13) % 5 == 2 && lr.chance(1, 2)).collect()
+            },
             in_place: !edit_case && !viz_mixed && i % 4 == 2,
             other_entry: (0..s)
                 .map(|k| {
@@ -590,7 +625,33 @@ impl Check for C13 {
                     co.count("runs_through_the_other_entry_point", 1);
                 }
                 let verbose_k = c.verbose[k] && setup_k.entry == Entry::Cli;
-                let res = forced_run_opt(env, &w_run, &setup_k, &c.cfg, c.procs[k].clone(), verbose_k, c.viz[k], !(c.in_place && k > 0));
+                let res = if c.via_library.get(k).copied().unwrap_or(false) {
+                    co.count("runs_through_the_library_function", 1);
+                    if !(c.in_place && k > 0) {
+                        let _ = std::fs::remove_dir_all(w_run.out_dir(&setup_k));
+                    }
+                    let r = scen::run_library(env, &w_run, &setup_k, &c.cfg, c.procs[k].clone(), c.verbose[k]);
+                    if r.res.status.is_ok() {
+                        // the library writes the bindings only: what it does not write is taken from
+                        // run 0, so that the comparison is about the bindings
+                        let mut f = scen::out_files(&w_run, &setup_k);
+                        for n in [".typecache", "dependency-graph.txt", "dependency-graph.dot"] {
+                            match outs.first().and_then(|o| o.get(n)) {
+                                Some(b) => {
+                                    f.insert(n.to_string(), b.clone());
+                                }
+                                None => {
+                                    f.remove(n);
+                                }
+                            }
+                        }
+                        Ok(f)
+                    } else {
+                        Err(r.res.status.short())
+                    }
+                } else {
+                    forced_run_opt(env, &w_run, &setup_k, &c.cfg, c.procs[k].clone(), verbose_k, c.viz[k], !(c.in_place && k > 0))
+                };
                 if moved {
                     std::fs::rename(&w_run.root, &w.root).expect("move world back");
                 }
@@ -630,11 +691,13 @@ impl Check for C13 {
                 if k == 0 {
                     continue;
                 }
-                let same_viz = c.viz[k] == c.viz[0];
+                // (a library run has the record and the report of run 0 grafted on: same setting by construction)
+                let viz_k = if c.via_library.get(k).copied().unwrap_or(false) { c.viz[0] } else { c.viz[k] };
+                let same_viz = viz_k == c.viz[0];
                 compare_files(&mut co, &outs[0], o, &format!("run 0 vs run {} (same sources, other hash keys/dir order/clock)", k), true, same_viz);
                 if !same_viz {
                     // visualisation only adds its own two files
-                    let (with, without) = if c.viz[k] { (o, &outs[0]) } else { (&outs[0], o) };
+                    let (with, without) = if viz_k { (o, &outs[0]) } else { (&outs[0], o) };
                     let extra: BTreeSet<&String> = with.keys().filter(|n| !without.contains_key(*n)).collect();
                     let want: BTreeSet<String> = ["dependency-graph.dot".to_string(), "dependency-graph.txt".to_string()].into();
                     let extra_owned: BTreeSet<String> = extra.into_iter().cloned().collect();
